@@ -244,7 +244,11 @@ fn planted(r: &mut Rng) -> (String, &'static str) {
 
 /// Sources that are nothing but an oddity: empty, blank, comment only, or a lone bad line.
 fn degenerate(r: &mut Rng) -> (String, &'static str) {
-    match r.below(12) {
+    let k = r.below(12);
+    degenerate_kind(k, r)
+}
+fn degenerate_kind(k: u64, r: &mut Rng) -> (String, &'static str) {
+    match k {
         0 => (String::new(), "empty"),
         1 => ("   \n\t\n".into(), "blank"),
         2 => ("# only a comment\n# another".into(), "comment-only"),
@@ -308,7 +312,8 @@ fn churn_loop(r: &mut Rng) -> String {
 fn gen_program(r: &mut Rng) -> Value {
     if r.chance(8) {
         let (text, what) = degenerate(r);
-        return json!({"prog": prog::block_to_json(&[St::Raw(text)]), "plant": what});
+        // "src": the exact bytes (rendering a raw line would add a newline to the empty source)
+        return json!({"prog": prog::block_to_json(&[St::Raw(text.clone())]), "src": text, "plant": what});
     }
     let mut g = prog::Gen::new(r.fork());
     // sessions and the real binary have neither a simulated host nor a simulated stdin
@@ -560,6 +565,14 @@ impl Engine for C14 {
                 if route == "eval" {
                     route = "file";
                 }
+            }
+            // systematic corner: every kind of degenerate source through every input route
+            let ci = i / 3;
+            if ci % 16 == 5 {
+                let combo = (ci / 16) % 48;
+                let (text, what) = degenerate_kind(combo % 12, &mut r);
+                program = json!({"prog": prog::block_to_json(&[St::Raw(text.clone())]), "src": text, "plant": what});
+                route = ["file", "eval", "stdin", "devstdin"][(combo / 12) as usize % 4];
             }
             let nchunks = r.usize(1, 6);
             let chunks: Vec<u64> = (0..nchunks).map(|_| r.pick(&[1u64, 7, 100, 4096, 8191, 8192, 8193, 65_536])).collect();
